@@ -300,6 +300,176 @@ theorem buchberger_par (o : Order) : ∀ (fuel : Nat) (gb : List (BPoly α)), Al
           · exact hgb p h1
           · exact hv _ hs p h1
 
+
+/-- result `(ideal, x)` of an ideal method: generators valid -/
+def IdRes {β : Type} (V : α → Prop) (o : Option (Ideal α × β)) : Prop :=
+  ∀ r, o = some r → AllMM V r.1.gens
+
+theorem groebnerBasis_par (o : Order) {id : Ideal α} (hid : AllMM V id.gens) :
+    id.groebnerBasis F' o = id.groebnerBasis F o ∧
+      ∀ g, id.groebnerBasis F o = some g → AllMM V g.gens := by
+  unfold Ideal.groebnerBasis
+  obtain ⟨e, hv⟩ := buchberger_par hA hC o groebnerFuel _ hid
+  rw [e]
+  split
+  · exact ⟨rfl, fun g h => by cases h; exact hid⟩
+  · cases hb : buchberger F o groebnerFuel id.gens with
+    | none => exact ⟨rfl, fun g h => by cases h⟩
+    | some gb => exact ⟨rfl, fun g h => by cases h; exact hv gb hb⟩
+
+theorem decideGroebner_congr (o : Order) {gens : List (BPoly α)} (hg : AllMM V gens) :
+    decideGroebner F' o gens = decideGroebner F o gens := by
+  unfold decideGroebner; rw [(sPairRems_par hA hC o hg).1]
+
+theorem isGroebnerQ_par (o : Order) {id : Ideal α} (hid : AllMM V id.gens) :
+    id.isGroebnerQ F' o = id.isGroebnerQ F o ∧ IdRes V (id.isGroebnerQ F o) := by
+  unfold Ideal.isGroebnerQ
+  rw [decideGroebner_congr hA hC o hid]
+  split
+  · exact ⟨rfl, fun r h => by cases h; exact hid⟩
+  · split
+    · exact ⟨rfl, fun r h => by cases h; exact hid⟩
+    · cases decideGroebner F o id.gens with
+      | none => exact ⟨rfl, fun r h => by cases h⟩
+      | some b => exact ⟨rfl, fun r h => by cases h; exact hid⟩
+
+theorem leadingTerms_par (o : Order) {gens : List (BPoly α)} (hg : AllMM V gens) :
+    leadingTerms F' o gens = leadingTerms F o gens ∧ AllMM V (leadingTerms F o gens).1 ∧
+      AllMM V (leadingTerms F o gens).2 := by
+  unfold leadingTerms
+  dsimp only
+  have e1 : gens.map (BPoly.normalize F' o) = gens.map (BPoly.normalize F o) :=
+    List.map_congr_left fun f hf => (normalize_par hA hC o (hg f hf)).1
+  have h1 : AllMM V (gens.map (BPoly.normalize F o)) := by
+    intro p hp
+    obtain ⟨f, hf, rfl⟩ := List.mem_map.1 hp
+    exact (normalize_par hA hC o (hg f hf)).2
+  have e2 : (gens.map (BPoly.normalize F o)).map (BPoly.lt F' o)
+      = (gens.map (BPoly.normalize F o)).map (BPoly.lt F o) :=
+    List.map_congr_left fun f hf => (lt_par hA hC o (h1 f hf)).1
+  have h2 : AllMM V ((gens.map (BPoly.normalize F o)).map (BPoly.lt F o)) := by
+    intro p hp
+    obtain ⟨f, hf, rfl⟩ := List.mem_map.1 hp
+    exact (lt_par hA hC o (h1 f hf)).2
+  rw [e1, e2]
+  exact ⟨rfl, h1, h2⟩
+
+theorem spannedByOthers_congr (o : Order) {lts : List (BPoly α)} (hl : AllMM V lts) (i : Nat) :
+    spannedByOthers F' o lts i = spannedByOthers F o lts i := by
+  unfold spannedByOthers
+  rw [(quoRemLoop_par hA hC o (some i) hl 1000 _ _ [] (AllMM.getD hl i) (AllMM.nils lts) nil_V).1]
+
+omit hA hC in
+theorem AllMM.eraseIdx {l : List (BPoly α)} (hl : AllMM V l) (i : Nat) : AllMM V (l.eraseIdx i) :=
+  fun f hf => hl f (List.mem_of_mem_eraseIdx hf)
+
+theorem minimizeLoop_par (o : Order) : ∀ (fuel i : Nat) (gens lts : List (BPoly α)),
+    AllMM V gens → AllMM V lts →
+    minimizeLoop F' o fuel i gens lts = minimizeLoop F o fuel i gens lts ∧
+      AllMM V (minimizeLoop F o fuel i gens lts) := by
+  intro fuel
+  induction fuel with
+  | zero => intro i gens lts hg _; exact ⟨rfl, hg⟩
+  | succ fuel ih =>
+    intro i gens lts hg hl
+    rw [minimizeLoop, minimizeLoop, spannedByOthers_congr hA hC o hl]
+    split
+    · exact ⟨rfl, hg⟩
+    · split
+      · exact ih _ _ _ (hg.eraseIdx i) (hl.eraseIdx i)
+      · exact ih _ _ _ hg hl
+
+theorem minimizeBasis_par (o : Order) {id : Ideal α} (hid : AllMM V id.gens) :
+    id.minimizeBasis F' o = id.minimizeBasis F o ∧ IdRes V (id.minimizeBasis F o) := by
+  unfold Ideal.minimizeBasis
+  obtain ⟨e, hv⟩ := isGroebnerQ_par hA hC o hid
+  rw [e]
+  cases hq : id.isGroebnerQ F o with
+  | none => exact ⟨rfl, fun r h => by cases h⟩
+  | some idb =>
+    obtain ⟨id', b⟩ := idb
+    have hid' : AllMM V id'.gens := hv _ hq
+    cases b
+    · exact ⟨rfl, fun r h => by cases h; exact hid'⟩
+    · obtain ⟨e2, h1, h2⟩ := leadingTerms_par hA hC o hid'
+      dsimp only
+      rw [e2]
+      cases hlt : leadingTerms F o id'.gens with
+      | mk g' l =>
+        rw [hlt] at h1 h2
+        obtain ⟨e3, h3⟩ := minimizeLoop_par hA hC o (g'.length + 1) 0 g' l h1 h2
+        dsimp only
+        rw [e3]
+        exact ⟨rfl, fun r h => by cases h; exact h3⟩
+
+theorem isMinimalQ_par (o : Order) {id : Ideal α} (hid : AllMM V id.gens) :
+    id.isMinimalQ F' o = id.isMinimalQ F o ∧ IdRes V (id.isMinimalQ F o) := by
+  unfold Ideal.isMinimalQ
+  obtain ⟨e, hv⟩ := isGroebnerQ_par hA hC o hid
+  rw [e]
+  split
+  · exact ⟨rfl, fun r h => by cases h; exact hid⟩
+  · split
+    · exact ⟨rfl, fun r h => by cases h; exact hid⟩
+    · cases hq : id.isGroebnerQ F o with
+      | none => exact ⟨rfl, fun r h => by cases h⟩
+      | some idb =>
+        obtain ⟨id', b⟩ := idb
+        have hid' : AllMM V id'.gens := hv _ hq
+        cases b
+        · exact ⟨rfl, fun r h => by cases h; exact hid'⟩
+        · obtain ⟨e2, h1, h2⟩ := leadingTerms_par hA hC o hid'
+          dsimp only
+          rw [e2]
+          cases hlt : leadingTerms F o id'.gens with
+          | mk g' l =>
+            rw [hlt] at h1 h2
+            have e3 : (fun i => !spannedByOthers F' o l i) = (fun i => !spannedByOthers F o l i) :=
+              funext fun i => by rw [spannedByOthers_congr hA hC o h2]
+            dsimp only
+            rw [e3]
+            exact ⟨rfl, fun r h => by cases h; exact h1⟩
+
+theorem remByOthers_par (o : Order) {gens : List (BPoly α)} (hg : AllMM V gens) (i : Nat) :
+    remByOthers F' o gens i = remByOthers F o gens i ∧ OptM V (remByOthers F o gens i) := by
+  unfold remByOthers
+  obtain ⟨e, hv⟩ := quoRemLoop_par hA hC o (some i) hg divFuel _ _ [] (AllMM.getD hg i)
+    (AllMM.nils gens) nil_V
+  rw [e]
+  cases hq : quoRemLoop F o (some i) gens divFuel (gens.getD i []) (gens.map fun _ => []) [] with
+  | none => exact ⟨rfl, fun _ h => by cases h⟩
+  | some qr => exact ⟨rfl, fun v h => by cases h; exact (hv qr.1 qr.2 hq).2⟩
+
+omit hA hC in
+theorem AllMM.set {l : List (BPoly α)} (hl : AllMM V l) (i : Nat) {r : BPoly α} (hr : AllM V r) :
+    AllMM V (l.set i r) := by
+  intro f hf
+  rcases List.mem_or_eq_of_mem_set hf with h | rfl
+  · exact hl f h
+  · exact hr
+
+theorem reduceFold_par (o : Order) (n : Nat) {gens : List (BPoly α)} (hg : AllMM V gens) :
+    (List.range n).foldl (fun acc i => match acc with
+        | none => none
+        | some gens => (remByOthers F' o gens i).map fun r => gens.set i r) (some gens)
+      = (List.range n).foldl (fun acc i => match acc with
+        | none => none
+        | some gens => (remByOthers F o gens i).map fun r => gens.set i r) (some gens) ∧
+    OptMM V ((List.range n).foldl (fun acc i => match acc with
+        | none => none
+        | some gens => (remByOthers F o gens i).map fun r => gens.set i r) (some gens)) := by
+  refine foldl_par (OptMM V) (fun _ : Nat => True) _ _ (fun acc i hacc _ => ?_) (List.range n)
+    (some gens) (fun _ _ => trivial) (fun l h => by cases h; exact hg)
+  cases acc with
+  | none => exact ⟨rfl, fun _ h => by cases h⟩
+  | some gs =>
+    obtain ⟨e, hv⟩ := remByOthers_par hA hC o (hacc gs rfl) i
+    dsimp only
+    rw [e]
+    cases hr : remByOthers F o gs i with
+    | none => exact ⟨rfl, fun _ h => by cases h⟩
+    | some r => exact ⟨rfl, fun l h => by cases h; exact (hacc gs rfl).set i (hv r hr)⟩
+
 end Groebner
 end B
 end Tables
